@@ -28,6 +28,16 @@ def c17 (op0 : String) (args : List Sexp) : Verdict :=
       | .ok (v, rest), _ => .oracle s!"spec ok {v} rest {rest.length} impl {impl}"
       | .error _, _ => .oracle s!"spec error, impl {impl}"
     | _, _ => .bad "args"
+  | "int-s", [w, bs, impl] =>   -- Skip of the built integer codec: the same varint rules, no width check
+    match asNat w, asBytes bs with
+    | some w, some bs =>
+      match readVarint bs, impl with
+      | .ok (_, rest), .list [.atom "ok", irest] =>
+        if asNat irest == some rest.length then .ok s!"int-s/w{w}/ok" else .oracle s!"skip: spec leaves {rest.length} bytes, impl {impl}"
+      | .error e, .list (.atom "err" :: _) => .ok (match e with | .eof => s!"int-s/w{w}/eof" | .overflow => s!"int-s/w{w}/overflow")
+      | .ok (_, rest), _ => .oracle s!"skip: spec ok rest {rest.length}, impl {impl}"
+      | .error _, _ => .oracle s!"skip: a malformed varint (truncated, longer than ten bytes or overflowing 64 bits) was accepted: {impl}"
+    | _, _ => .bad "args"
   | "int-rt", [w, v, impl] =>   -- write then read through a built codec
     match asNat w, asInt v with
     | some w, some v =>
